@@ -129,6 +129,13 @@ Arguments partition {X}.
 Arguments sort_part {X}.
 Arguments qsort {X}.
 
+(* Array_Push_At: for (j = nitems-1; j > i; j--) swap(item j, item j-1)   (cnt = nitems-1 - i) *)
+Fixpoint bubble {X : Type} (cnt : nat) (cs : list X) (j : nat) : option (list X) :=
+  match cnt with
+  | 0 => Some cs
+  | S c => match swap_at cs j (j - 1) with Some cs' => bubble c cs' (j - 1) | None => None end
+  end.
+
 Inductive kind := KArray | KList | KTuple.
 
 Section Seq.
@@ -244,15 +251,15 @@ Section Seq.
       if nitems a =? 0 then (a, ORaise IndexError)
       else (a_reserve_less (mkA (cells a) (nitems a - 1) (nslots a)), OUnit)
     | SPushAt k v =>
-      (* index normalised and checked against the length the array will have *)
+      (* index normalised and checked against the length the array will have; the new element is
+         constructed behind the last one, counted, and then swapped down to its position *)
       let i := norm (nitems a + 1) k in
       if oob (nitems a + 1) i then (a, ORaise IndexError) else
       let a1 := a_reserve_more (mkA (cells a) (S (nitems a)) (nslots a)) in
-      let n := Z.to_nat i in
-      match memmove (cells a1) (n + 1) n (nitems a1 - 1 - n) with
+      match set_at (cells a1) (nitems a) (Some v) with
       | Some cs =>
-        match set_at cs n (Some v) with
-        | Some cs' => (mkA cs' (nitems a1) (nslots a1), OUnit)
+        match bubble (nitems a - Z.to_nat i) cs (nitems a) with
+        | Some cs' => (mkA cs' (S (nitems a)) (nslots a1), OUnit)
         | None => (a, OCrash)
         end
       | None => (a, OCrash)
@@ -786,6 +793,18 @@ Section Seq.
     | SAssign ws => distinct ws
     | _ => True
     end.
+
+  (* reads: operations that only observe *)
+  Definition is_read (o : sop) : bool := match o with SGet _ | SMem _ => true | _ => false end.
+  Definition is_write (o : sop) : bool := negb (is_read o).
+  Section Runs.
+    Variable St : Type.
+    Variable step : St -> sop -> St * out.
+    Fixpoint final (s : St) (ops : list sop) : St :=
+      match ops with [] => s | o :: r => final (fst (step s o)) r end.
+    Fixpoint trace (s : St) (ops : list sop) : list (sop * out) :=
+      match ops with [] => [] | o :: r => (o, snd (step s o)) :: trace (fst (step s o)) r end.
+  End Runs.
 
   (* "the representation refines the abstract sequence along a history": as long as every
      operation is inside the container's contract (and `extra` holds), each step keeps the
